@@ -1,107 +1,14 @@
-(* C02 for binary chains of any length:  v0 o1 v1 ... on vn  with every binary operator
-   token of the table.  The loop of parse() is run through the chain by induction,
-   carrying the spine invariant; the final node array is the tree spine insertion
-   builds, which is the tree precedence climbing (Spec.Pratt) defines. *)
+(* the end of parse() on a complete tree, and small facts shared by the final theorems *)
 From Coq Require Import List Arith Bool NArith Lia.
 From GV Require Import Base.Result Gen.TokenTypes Gen.Defs Model.Parser Spec.RefTable Spec.Pratt Spec.Chains
   Proofs.C02.Spine Proofs.C02.Denote Proofs.C02.Validate Proofs.C02.Invariant Proofs.C02.Steps.
 Import ListNotations.
 
-(* ---- the items of a chain ---- *)
-Fixpoint chain_items (rest : list token_type) (i : nat) : list item :=
-  match rest with
-  | o :: v :: r => IBinary (ref_def o) (Some i) :: IValue (ref_def v) (S i) :: chain_items r (S (S i))
-  | _ => []
-  end.
-
-Lemma items_of_chain_tail : forall n rest, length rest <= n -> forall i pk,
-  chain_tail rest = true -> items_of rest i (Some pk) false = Some (chain_items rest i).
-Proof.
-  induction n as [|n IH]; intros rest Hn i pk H.
-  - destruct rest; [reflexivity|simpl in Hn; lia].
-  - destruct rest as [|o [|v r]]; [reflexivity|discriminate|].
-    cbn [chain_tail] in H. apply andb_true_iff in H. destruct H as [H H3].
-    apply andb_true_iff in H. destruct H as [H1 H2].
-    unfold is_binary_tok in H1. unfold is_value_tok in H2.
-    cbn [items_of chain_items].
-    destruct (ref_kind o) eqn:Eo; try discriminate.
-    destruct (ref_kind v) eqn:Ev; try discriminate.
-    cbn [andb]. rewrite (IH r ltac:(simpl in Hn; lia) (S (S i)) KValue H3).
-    destruct pk; reflexivity.
-Qed.
-
-(* ---- the loop over the chain ---- *)
-Lemma run_chain ntoks : forall n rest, length rest <= n -> forall i st fs t,
-  chain_tail rest = true -> compl st fs t -> length (nodes st) = i -> i + length rest = ntoks ->
-  exists st' fs' t',
-    run_steps ntoks i rest st = Ok st' /\ compl st' fs' t' /\
-    spine_run (chain_items rest i) i (fs, Some t) = Some (fs', Some t').
-Proof.
-  induction n as [|n IH]; intros rest Hn i st fs t H C Hlen Hi.
-  - destruct rest; [|simpl in Hn; lia]. exists st, fs, t. simpl. auto.
-  - destruct rest as [|o [|v r]]; [exists st, fs, t; simpl; auto|discriminate|].
-    cbn [chain_tail] in H. apply andb_true_iff in H. destruct H as [H H3].
-    apply andb_true_iff in H. destruct H as [H1 H2]. simpl in Hi, Hn.
-    destruct (step_binary ntoks i o st fs t C H1 ltac:(lia)) as (st1 & fs1 & t1 & Hpop & Hs1 & P1 & L1).
-    destruct (step_value ntoks (S i) v st1 _ P1 H2) as (st2 & Hs2 & C2 & L2).
-    destruct (IH r ltac:(lia) (S (S i)) st2 _ _ H3 C2 ltac:(lia) ltac:(lia)) as (st' & fs' & t' & R & C' & SR).
-    exists st', fs', t'. split; [|split; [exact C'|]].
-    + cbn [run_steps]. rewrite Hs1. cbn [bind]. rewrite Hs2. cbn [bind]. exact R.
-    + cbn [chain_items spine_run spine_step].
-      destruct (binary_tok_facts o H1) as (sec & my & p & BF). rewrite (bf_rank _ _ _ _ BF).
-      rewrite Hpop. cbn [spine_run spine_step]. rewrite <- SR. rewrite L1, Hlen. reflexivity.
-Qed.
-
-Lemma chain_items_ranked : forall n rest, length rest <= n -> forall i,
-  chain_tail rest = true -> Forall item_ranked (chain_items rest i).
-Proof.
-  induction n as [|n IH]; intros rest Hn i H.
-  - destruct rest; [constructor|simpl in Hn; lia].
-  - destruct rest as [|o [|v r]]; [constructor|discriminate|].
-    cbn [chain_tail] in H. apply andb_true_iff in H. destruct H as [H H3].
-    apply andb_true_iff in H. destruct H as [H1 H2]. simpl in Hn.
-    cbn [chain_items]. constructor; [|constructor; [exact I|apply (IH r); [lia|exact H3]]].
-    destruct (binary_tok_facts o H1) as (sec & my & p & BF).
-    simpl. exists p. split; [exact (bf_rank _ _ _ _ BF)|exact (bf_inf _ _ _ _ BF)].
-Qed.
-
-(* ---- trimming leaves a chain alone ---- *)
-Lemma value_not_trim t : is_value_tok t = true -> is_trim t = false.
-Proof. destruct t; intros H; try discriminate H; reflexivity. Qed.
-
-Lemma chain_tail_last : forall n rest, length rest <= n -> chain_tail rest = true ->
-  rest = [] \/ exists r0 v, rest = r0 ++ [v] /\ is_value_tok v = true.
-Proof.
-  induction n as [|n IH]; intros rest Hn H.
-  - destruct rest; [left; reflexivity|simpl in Hn; lia].
-  - destruct rest as [|o [|v r]]; [left; reflexivity|discriminate|]. right.
-    cbn [chain_tail] in H. apply andb_true_iff in H. destruct H as [H H3].
-    apply andb_true_iff in H. destruct H as [H1 H2]. simpl in Hn.
-    destruct (IH r ltac:(lia) H3) as [->|(r0 & v' & -> & Hv')].
-    + exists [o], v. split; [reflexivity|exact H2].
-    + exists (o :: v :: r0), v'. split; [reflexivity|exact Hv'].
-Qed.
-
-Lemma trim_tokens_chain toks : binary_chain toks = true -> trim_tokens toks = (0, toks).
-Proof.
-  destruct toks as [|v rest]; [discriminate|]. cbn [binary_chain]. intros H.
-  apply andb_true_iff in H. destruct H as [Hv Ht].
-  unfold trim_tokens. cbn [drop_while_trim]. rewrite (value_not_trim v Hv).
-  rewrite Nat.sub_diag. f_equal.
-  destruct (chain_tail_last (length rest) rest (le_n _) Ht) as [->|(r0 & v' & -> & Hv')].
-  - cbn [rev app drop_while_trim]. rewrite (value_not_trim v Hv). reflexivity.
-  - replace (rev (v :: r0 ++ [v'])) with (v' :: rev (v :: r0)).
-    + cbn [drop_while_trim]. rewrite (value_not_trim v' Hv').
-      change (v' :: rev (v :: r0)) with ([v'] ++ rev (v :: r0)).
-      rewrite rev_app_distr, rev_involutive. reflexivity.
-    + cbn [rev]. rewrite rev_app_distr. reflexivity.
-Qed.
-
 (* ---- the end of parse(): nothing left to fix up on a complete tree ---- *)
 Lemma denotes_right_lt ns : forall t p j n r,
   denotes ns p t -> has_id t j -> nth_error ns j = Some n -> n_right n = Some r -> r < length ns.
 Proof.
-  induction t as [i d k|i d k a IH|i d k a IH|i d k l IHl r0 IHr]; intros p j n r D Hj Hn Hr; simpl in D, Hj;
+  induction t as [i d k|i d k a IH|i d k a IH|i d k l IHl r0 IHr|i k a IH]; intros p j n r D Hj Hn Hr; simpl in D, Hj;
     destruct D as (n0 & Hn0 & A).
   - subst j. rewrite Hn0 in Hn. injection Hn as <-. destruct A as (_ & _ & _ & _ & _ & A6 & _). congruence.
   - destruct A as (A1 & A2 & A3 & A4 & A5 & A6 & A7). destruct Hj as [->|Hj].
@@ -116,6 +23,10 @@ Proof.
       eapply denotes_lt; [exact A6|apply has_id_root].
     + eapply IHl; eauto.
     + eapply IHr; eauto.
+  - destruct A as (A1 & A2 & A3 & A4 & A5 & A6 & A7). destruct Hj as [->|Hj].
+    + rewrite Hn0 in Hn. injection Hn as <-. rewrite A5 in Hr. injection Hr as <-.
+      eapply denotes_lt; [exact A7|apply has_id_root].
+    + eapply IH; eauto.
 Qed.
 
 Lemma map_fix_right_id ns t :
@@ -140,60 +51,3 @@ Proof.
   - rewrite IHt1, IHt2. reflexivity.
 Qed.
 
-(* what parse() returns once the loop has ended in a completed state *)
-Lemma parse_trimmed_compl toks st fs t :
-  toks <> [] -> run_steps (length toks) 0 toks init_state = Ok st -> compl st fs t ->
-  parse_trimmed toks = Ok (nid (close fs t), nodes st) /\
-  denotes (nodes st) None (close fs t) /\ ordered (close fs t).
-Proof.
-  intros Hne Hrun C. destruct C as [L Cl Hll Cov Bot FO [Hcg Hgs Hnll Hcfl Hsep] Hprev].
-  destruct L as [Sp D F O].
-  pose proof (close_denotes _ _ _ Sp D) as DT. pose proof (close_ordered _ _ F O) as OT.
-  assert (CovT : forall j, j < length (nodes st) -> has_id (close fs t) j).
-  { intros j Hj. apply close_has. apply Cov. exact Hj. }
-  assert (LoT : lo (close fs t) = 0) by (rewrite close_lo; exact Bot).
-  split; [|split; assumption].
-  unfold parse_trimmed. destruct toks as [|t0 rest]; [congruence|]. rewrite Hrun. cbn [bind].
-  rewrite Hcfl, Hsep, Hgs.
-  assert (Hf : forbidden (prev_sec st) S_None false = false) by (destruct (prev_sec st); try discriminate; reflexivity).
-  rewrite Hf. cbn [andb]. cbv zeta. rewrite (map_fix_right_id _ _ DT CovT).
-  destruct (denotes_root _ _ _ DT) as (nr & Hnr & _).
-  destruct (nodes st) as [|n0 ns'] eqn:En; [destruct (nid (close fs t)); discriminate|].
-  rewrite <- En in *.
-  assert (H0 : nth_error (nodes st) 0 = Some n0) by (rewrite En; reflexivity).
-  rewrite (find_root_tree _ _ _ DT OT LoT H0). cbn [bind].
-  rewrite (validate_tree_complete _ _ DT OT CovT). reflexivity.
-Qed.
-
-Theorem c02_binary_chains toks : binary_chain toks = true -> c02_agree toks = true.
-Proof.
-  intros H. pose proof (trim_tokens_chain toks H) as Htrim.
-  destruct toks as [|v rest]; [discriminate|]. cbn [binary_chain] in H.
-  apply andb_true_iff in H. destruct H as [Hv Ht].
-  (* the loop *)
-  destruct (step_value (length (v :: rest)) 0 v init_state [] init_pend Hv) as (st1 & Hs1 & C1 & L1).
-  cbn [nodes init_state length] in C1, L1.
-  destruct (run_chain (length (v :: rest)) (length rest) rest (le_n _) 1 st1 _ _ Ht C1 L1 ltac:(simpl; lia))
-    as (st' & fs' & t' & R & C' & SR).
-  assert (Hrun : run_steps (length (v :: rest)) 0 (v :: rest) init_state = Ok st').
-  { cbn [run_steps]. rewrite Hs1. cbn [bind]. exact R. }
-  destruct (parse_trimmed_compl (v :: rest) st' fs' t' ltac:(discriminate) Hrun C') as (Hp & DT & OT).
-  (* the reference *)
-  set (T := close fs' t') in *.
-  assert (Hitems : items_of (v :: rest) 0 None false = Some (IValue (ref_def v) 0 :: chain_items rest 1)).
-  { cbn [items_of]. unfold is_value_tok in Hv. destruct (ref_kind v) eqn:Ev; try discriminate.
-    rewrite (items_of_chain_tail (length rest) rest (le_n _) 1 KValue Ht). reflexivity. }
-  assert (Hins : spine_insert (IValue (ref_def v) 0 :: chain_items rest 1) = Some T).
-  { unfold spine_insert. cbn [spine_run spine_step]. rewrite SR. reflexivity. }
-  assert (Hranked : Forall item_ranked (IValue (ref_def v) 0 :: chain_items rest 1)).
-  { constructor; [exact I|]. apply (chain_items_ranked (length rest)); [lia|exact Ht]. }
-  unfold c02_agree, pratt. rewrite Hitems.
-  rewrite (spine_insert_climb _ T _ Hranked Hins) by lia.
-  unfold parse. rewrite Htrim. cbn [fst snd]. rewrite Hp.
-  pose proof (ordered_size T OT) as Hsz.
-  assert (Hhi : hi T < length (nodes st')).
-  { assert (has_id T (hi T)) as Hh by (clear; induction T; simpl; auto).
-    eapply denotes_lt; eauto. }
-  rewrite (tree_of_denotes (nodes st') T None _ DT) by lia.
-  apply rtree_eqb_refl.
-Qed.
